@@ -100,14 +100,20 @@ func runRecovery(ctx context.Context, cfg Config) error {
 	nodes := cfg.Cluster.Nodes()
 	sCtx := signal.Wrap(ctx, signal.WithInstrumentation(cfg.Instrumentation))
 	cfg.L.Info("recovering lost key-value operations", zap.Int("peer_node_count", len(nodes)-1))
-	for _, n := range nodes {
-		if n.Key == cfg.Cluster.HostKey() {
-			continue
+	// Peers are recovered one after the other: each peer's operations are applied in
+	// one transaction that reads the stored digests, so two peers holding different
+	// versions of a key must not be applied concurrently.
+	sCtx.Go(func(ctx context.Context) error {
+		for _, n := range nodes {
+			if n.Key == cfg.Cluster.HostKey() {
+				continue
+			}
+			if err := runSingleNodeRecovery(ctx, cfg, n); err != nil {
+				return err
+			}
 		}
-		sCtx.Go(func(ctx context.Context) error {
-			return runSingleNodeRecovery(ctx, cfg, n)
-		}, signal.WithKeyf("node_%v", n.Key))
-	}
+		return nil
+	}, signal.WithKey("recovery"))
 	err := sCtx.Wait()
 	if err != nil {
 		cfg.L.Error("recovery failed", zap.Error(err))
@@ -166,6 +172,13 @@ func runSingleNodeRecovery(
 			}
 			count += len(resp.Operations)
 			for _, op := range resp.Operations {
+				sup, supErr := supersedes(ctx, tx, op)
+				if supErr != nil {
+					return supErr
+				}
+				if !sup {
+					continue
+				}
 				if err = op.apply(ctx, tx); err != nil {
 					return err
 				}
